@@ -517,7 +517,7 @@ class BoltzmannSolver:
             dTemperaturedChi = (derivMatrixChi @ temperatureFull)[
                 None, 1:-1, None, None
             ]
-            dvdChi = (derivMatrixChi @ temperatureFull)[None, 1:-1, None, None]
+            dvdChi = (derivMatrixChi @ vFull)[None, 1:-1, None, None]
             # the following is equivalent to:
             # dMsqdChiEinsum = np.einsum(
             #   "ij,aj->ai", derivMatrixChi.toarray(), msqFull
